@@ -69,7 +69,10 @@ def payloads(seed, n):
     look = (bytes([0x76, 0xa9, 0x14]) + bytes(range(0x14, 0x40)))[:n]      # looks like the start of a template
     return [("zeros", bytes(n)), ("ff", b"\xff" * n), ("ramp", bytes(range(1, n + 1))),
             ("lookalike", look), ("lead0", b"\0\0" + bytes(range(7, 5 + n))),
-            ("seedA", seed_bytes(seed, "c08.A.%d" % n, n)), ("seedB", seed_bytes(seed, "c08.B.%d" % n, n))]
+            ("seedA", seed_bytes(seed, "c08.A.%d" % n, n)), ("seedB", seed_bytes(seed, "c08.B.%d" % n, n)),
+            # hashes whose hex spelling is a decimal numeral / an opcode-like word (script text is assembled from hex tokens)
+            ("decimal-hex", bytes.fromhex(("1234567890" * 8)[:2 * n])), ("decimal-hex-9", b"\x99" * n),
+            ("hex-letters", bytes.fromhex(("deadbeef" * 10)[:2 * n]))]
 
 
 def fill(label, n):
@@ -482,7 +485,7 @@ class Cross(Driver):
 
     def __init__(self, tier, seed):
         Driver.__init__(self, tier, seed)
-        self.labels = ["zeros", "ramp", "seedA"] if tier == "quick" else [l for l, b in payloads(seed, 20)]
+        self.labels = ["zeros", "ramp", "seedA", "decimal-hex"] if tier == "quick" else [l for l, b in payloads(seed, 20)]
         self.bound = dict(networks=len(NETS), ordered_pairs=len(NETS) ** 2, kinds=list(KINDS), payloads=self.labels)
 
     def units(self):
